@@ -184,10 +184,22 @@ func exact(in []byte) []byte {
 	return o[:len(in):len(in)]
 }
 
+// used is the octets of a message with a question, records in every section and an OPT: a Msg
+// that decoded it before is the "previously used receiver" of every third decode, because
+// whatever Unpack returns must come from ITS input, not from what the receiver held before.
+var used []byte
+var ntry int
+
 func tryMsg(in []byte, w *hx.Writer, logMax int) (*dns.Msg, error) {
 	in = exact(in)
 	var m dns.Msg
 	var err error
+	ntry++
+	if used != nil && ntry%3 == 0 {
+		if e := m.Unpack(used); e != nil {
+			hx.Die("the receiver-priming message does not unpack: %v", e)
+		}
+	}
 	if !guarded("Msg.Unpack", in, func() { err = m.Unpack(in) }) {
 		return nil, fmt.Errorf("guard")
 	}
@@ -263,6 +275,30 @@ func replay(vpath, epath string) {
 func main() {
 	if len(os.Args) < 3 {
 		hx.Die("usage")
+	}
+	{
+		pm := new(dns.Msg)
+		pm.SetQuestion("stale.example.", dns.TypeMX)
+		for _, t := range []string{"stale.example. 7 IN MX 1 mx.stale.example.", "stale.example. 7 IN NS ns.stale.example.", "ns.stale.example. 7 IN A 192.0.2.77"} {
+			rr, err := dns.NewRR(t)
+			if err != nil {
+				hx.Die("%v", err)
+			}
+			switch rr.Header().Rrtype {
+			case dns.TypeMX:
+				pm.Answer = append(pm.Answer, rr)
+			case dns.TypeNS:
+				pm.Ns = append(pm.Ns, rr)
+			default:
+				pm.Extra = append(pm.Extra, rr)
+			}
+		}
+		pm.SetEdns0(1232, true)
+		b, err := pm.Pack()
+		if err != nil {
+			hx.Die("%v", err)
+		}
+		used = b
 	}
 	switch os.Args[1] {
 	case "replay":
